@@ -881,6 +881,25 @@ fn check_projection(
     big.slice_mut(s![..;2, ..]).assign(&x.t());
     let zf: Array2<f64> = guarded(|| model.predict(&big.slice(s![..;2, ..]).reversed_axes()))
         .map_err(|e| violated("C18/predict/panic", json!({"ctx": ctxj, "data": which, "layout": "F-strided", "panic": e})))?;
+    // contiguous but not in standard order: column-major owned records, rows walked backwards
+    let mut fo = Array2::<f64>::zeros((p, n));
+    fo.assign(&x.t());
+    let fo = fo.reversed_axes();
+    let mut rev = x.slice(s![..;-1, ..]).to_owned(); // rows reversed ...
+    rev.invert_axis(ndarray::Axis(0)); // ... and viewed backwards again: logical x, negative stride
+    for (lname, arr) in [("F-contiguous", &fo), ("negative-row-stride", &rev)] {
+        let zl: Array2<f64> = guarded(|| model.predict(arr))
+            .map_err(|e| violated("C18/predict/panic", json!({"ctx": ctxj, "data": which, "layout": lname, "panic": e})))?;
+        req!(zl.dim() == z.dim(), "C18/predict/shape", {"ctx": ctxj, "data": which, "layout": lname, "got": zl.shape()});
+        let scale = x.mapv(f64::abs).dot(&comps.mapv(f64::abs).t()) + mean.mapv(f64::abs).dot(&comps.mapv(f64::abs).t());
+        for i in 0..n {
+            for j in 0..kk {
+                let tol = 64.0 * EPS * scale[[i, j]] + f64::MIN_POSITIVE;
+                req!((zl[[i, j]] - z[[i, j]]).abs() <= 2.0 * tol, "C18/predict/depends-on-memory-layout",
+                    {"ctx": ctxj, "data": which, "layout": lname, "row": i, "col": j, "got": zl[[i, j]], "standard_layout": z[[i, j]], "tol": 2.0 * tol});
+            }
+        }
+    }
     let zt = guarded(|| model.transform(DatasetBase::from(x.clone())))
         .map_err(|e| violated("C18/transform/panic", json!({"ctx": ctxj, "data": which, "panic": e})))?;
     req!(z.dim() == (n, kk), "C18/predict/shape", {"ctx": ctxj, "data": which, "got": z.shape(), "expected": [n, kk]});
@@ -1355,11 +1374,12 @@ pub fn run(ctx: &Ctx) {
     });
 
     // ---- the regime in which the iterative solver is still used after the dense fallback: p > 500, 5k <= p
-    let nhuge = ctx.tier.pick(2, 20);
+    let nhuge = ctx.tier.pick(4, 24);
     ctx.family("iterative-regime", nhuge, |c| {
-        let kind = [2usize, 0, 3, 1, 6, 5][(c.idx % 6) as usize];
+        // hardest spectra for a block iteration first (clustered, equicorrelated, low rank + noise)
+        let kind = [6usize, 5, 2, 0, 3, 1][(c.idx % 6) as usize];
         let p = 501 + c.rng.gen_range(0..40usize);
-        let n = p + 1 + c.rng.gen_range(0..200);
+        let n = p + 1 + if c.idx % 2 == 0 { c.rng.gen_range(150..260) } else { c.rng.gen_range(0..200) };
         let d = Dress { off: c.rng.gen_range(0..=2), cs: 0.0, gs: *gen::pick(&mut c.rng, &[0, 0, -3, 3]) };
         let mut x = base_matrix(&mut c.rng, kind, n, p);
         dress(&mut c.rng, &mut x, d);
@@ -1369,6 +1389,11 @@ pub fn run(ctx: &Ctx) {
         c.note("p", json!(p));
         let mut ks = vec![1usize, 2, 7, p / 8];
         ks.push(c.rng.gen_range(3..=40));
+        // just past the border: 5k > p, where the dense solver has to be used whatever n is
+        ks.push(p / 5 + 1);
+        if n / 5 > p / 5 + 1 {
+            ks.push(n / 5);
+        }
         ks.sort_unstable();
         ks.dedup();
         c.note("ks", json!(ks));
